@@ -94,17 +94,6 @@ fn idx(r: &mut Rng, len: usize) -> usize {
         _ => r.below(len as u64 + 1) as usize,
     }
 }
-fn idx_in(r: &mut Rng, len: usize) -> usize {
-    if len == 0 {
-        return 0;
-    }
-    match r.below(6) {
-        0 => 0,
-        1 => len - 1,
-        _ => r.below(len as u64) as usize,
-    }
-}
-
 /// key biased to: below the smallest, equal to an existing one, above the largest, extremes
 fn key_near(r: &mut Rng, w: usize, existing: &[&Vec<u8>]) -> Vec<u8> {
     let maxv = max_count(w);
@@ -332,13 +321,15 @@ pub struct RandGen {
     pub rng: Rng,
     pub max_ops: usize,
     closing: u8,
+    /// percentage of `enter` lines (9 = normal, 25 = histories with many simultaneously live accessors)
+    pub scope_pct: u64,
     /// favour a fixed "hot" field/element for a while, then switch (alternation between siblings)
     hot: Vec<Step>,
 }
 
 impl RandGen {
     pub fn new(rng: Rng, max_ops: usize) -> RandGen {
-        RandGen { rng, max_ops, closing: 0, hot: vec![] }
+        RandGen { rng, max_ops, closing: 0, scope_pct: 9, hot: vec![] }
     }
 }
 
@@ -355,7 +346,8 @@ impl OpSource for RandGen {
         let room = v.cap.saturating_sub(v.len);
         let roll = r.below(100);
         // scope ops
-        if roll < 9 {
+        let sp = self.scope_pct;
+        if roll < sp {
             let mut steps = child_steps(bshape, bval, r);
             if r.chance(1, 10) {
                 steps.push(Step::Elem(99)); // out of bounds / inapplicable on purpose
@@ -365,13 +357,13 @@ impl OpSource for RandGen {
                 return Some(format!("enter {}", print_step(s)));
             }
         }
-        if roll < 18 && v.levels.len() > 1 {
+        if roll < sp + 9 && v.levels.len() > 1 {
             return Some("leave".into());
         }
-        if roll == 18 && r.chance(1, 8) {
+        if roll == sp + 9 && r.chance(1, 8) {
             return Some("leave".into()); // possibly bad-op at depth 0
         }
-        if roll == 19 {
+        if roll == sp + 10 {
             return Some("reborrow".into());
         }
         // pick a target below the innermost level
